@@ -30,7 +30,10 @@ static const uint8_t *isolated_key(const uint8_t *key, int klen)
 }
 
 static int g_sched_changed;
-static unsigned g_copy_toggle; static Skinny128Key_t g_copy128; static Skinny64Key_t g_copy64;   /* set when a block function modified the schedule it takes as const */
+/* the byte copies live at every natural alignment of the type within 32 bytes (a schedule on the caller's stack is
+ * aligned for its members, not for vector loads) */
+static unsigned g_copy_toggle; static uint8_t g_copy_pool[sizeof(Skinny128Key_t) + sizeof(Skinny64Key_t) + 64] __attribute__((aligned(64)));
+#define COPY_AT(type, sel) ((type *)(void *)(g_copy_pool + _Alignof(type) * ((unsigned)(sel) % (32u / _Alignof(type)))))   /* set when a block function modified the schedule it takes as const */
 
 static int real_skinny(int bs, const uint8_t *key, int klen, int dir,
                        const uint8_t *in, uint8_t *out)
@@ -45,7 +48,7 @@ static int real_skinny(int bs, const uint8_t *key, int klen, int dir,
         { Skinny128Key_t b4, *use = &ks; memcpy(&b4, &ks, sizeof(ks));
           /* every other case uses a byte copy of the schedule while the object set_key filled in holds a pattern:
            * the block functions get a pointer to a value, and the value is all they may depend on */
-          if ((g_copy_toggle = (unsigned)(in[0] ^ in[bs - 1] ^ key[klen - 1] ^ 1)) & 1) { memcpy(&g_copy128, &ks, sizeof(ks)); memset(&ks, 0x5C, sizeof(ks)); use = &g_copy128; }
+          if ((g_copy_toggle = (unsigned)(in[0] ^ in[bs - 1] ^ key[klen - 1] ^ 1)) & 1) { use = COPY_AT(Skinny128Key_t, in[1] ^ key[0] ^ (in[0] >> 1)); memcpy(use, &ks, sizeof(ks)); memset(&ks, 0x5C, sizeof(ks)); }
           if (dir) skinny128_ecb_decrypt(out, in, use); else skinny128_ecb_encrypt(out, in, use);
           if (memcmp(&b4.schedule, &use->schedule, b4.rounds * sizeof(b4.schedule[0])) != 0 || b4.rounds != use->rounds) g_sched_changed = 1;
           memcpy(&ks, &b4, sizeof(ks)); }
@@ -57,7 +60,7 @@ static int real_skinny(int bs, const uint8_t *key, int klen, int dir,
         out_digest("skinny64-schedule", ks.schedule, ks.rounds * sizeof(ks.schedule[0]));
         verif_paint_stack();
         { Skinny64Key_t b4, *use = &ks; memcpy(&b4, &ks, sizeof(ks));
-          if ((g_copy_toggle = (unsigned)(in[0] ^ in[bs - 1] ^ key[klen - 1] ^ 1)) & 1) { memcpy(&g_copy64, &ks, sizeof(ks)); memset(&ks, 0x5C, sizeof(ks)); use = &g_copy64; }
+          if ((g_copy_toggle = (unsigned)(in[0] ^ in[bs - 1] ^ key[klen - 1] ^ 1)) & 1) { use = COPY_AT(Skinny64Key_t, in[1] ^ key[0] ^ (in[0] >> 1)); memcpy(use, &ks, sizeof(ks)); memset(&ks, 0x5C, sizeof(ks)); }
           if (dir) skinny64_ecb_decrypt(out, in, use); else skinny64_ecb_encrypt(out, in, use);
           if (memcmp(&b4.schedule, &use->schedule, b4.rounds * sizeof(b4.schedule[0])) != 0 || b4.rounds != use->rounds) g_sched_changed = 1;
           memcpy(&ks, &b4, sizeof(ks)); }
